@@ -207,6 +207,15 @@ pub fn run(opts: &Opts) {
             c3["az"]["rules"].as_array_mut().unwrap().push(rule_j(&tr, &mut pool, &keys));
             let tc = Rule::new(Predicate { name: "query".into(), terms: vec![] }, vec![], vec![tick_expr(ct)], vec![]);
             c3["az"]["checks"].as_array_mut().unwrap().push(json!({"k": "one", "q": [rule_j(&tc, &mut pool, &keys)]}));
+            // and in a check of the last appended block (checks of blocks after the authority block are a loop of
+            // their own in authorize)
+            let nb = c3["blocks"].as_array().unwrap().len();
+            if nb >= 2 {
+                let bt = *pick(&mut rng, &[0i64, 300, 700, 1100]);
+                let bc = Rule::new(Predicate { name: "query".into(), terms: vec![] }, vec![], vec![tick_expr(bt)], vec![]);
+                let bcj = json!({"k": "one", "q": [rule_j(&bc, &mut pool, &keys)]});
+                c3["blocks"][nb - 1]["checks"].as_array_mut().unwrap().push(bcj);
+            }
             let tq = Rule::new(Predicate { name: "data".into(), terms: vec![] }, vec![], vec![tick_expr(qt)], vec![]);
             let mut calls: Vec<Value> = (0..rng.gen_range(1..4))
                 .map(|_| match rng.gen_range(0..3) {
